@@ -329,6 +329,76 @@ def _conj(c):
     return [c]
 
 
+_OPEN_TOK, _CLOSE_TOK = ("#(", "(", "{", "["), (")", "}", "]")
+
+
+def _rep_close(tok):
+    return tok.startswith(")") and tok.endswith("*")
+
+
+def _fold_rep_groups(text, slots):
+    """`#( pre #k post )*` over `it.map(|x| quote!(body))` is `#( #k )*` over `it.map(|x| quote!(pre body post))`: the literal tokens of a
+    repetition (without separator) belong to every element, wherever they are written"""
+    toks = text.split(" ")
+    slots = list(slots)
+    i = 0
+    while i < len(toks):
+        if toks[i] != "#(":
+            i += 1
+            continue
+        depth, j = 1, i + 1
+        while j < len(toks) and depth:
+            if toks[j] in _OPEN_TOK:
+                depth += 1
+            elif toks[j] in _CLOSE_TOK or _rep_close(toks[j]):
+                depth -= 1
+            j += 1
+        inner = toks[i + 1:j - 1]
+        marks = [x for x in inner if re.fullmatch(r"#\d+", x)]
+        if depth == 0 and toks[j - 1] == ")*" and len(marks) == 1 and len(inner) > 1 and "#(" not in inner:
+            k = int(marks[0][1:])
+            st = slots[k]
+            if st[0] == "call" and st[1] == "Iterator::map" and len(st[2]) == 2 and st[2][1][0] == "closure" and st[2][1][3][0] == "tpl" \
+                    and st[2][1][3][1] == "quote":
+                clo = st[2][1]
+                tp = clo[3]
+                body = " ".join(tp[2] if x == marks[0] else x for x in inner).strip()
+                slots[k] = ("call", "Iterator::map", [st[2][0], ("closure", clo[1], clo[2], ("tpl", "quote", " ".join(body.split()), tp[3]))])
+                toks[i + 1:j - 1] = [marks[0]]
+                i += 3
+                continue
+        i += 1
+    return " ".join(toks), slots
+
+
+def _plain_flag(x):
+    """a condition that is a plain place (parameter, captured variable, loop element, field of one) or its negation: reading it cannot fail
+    or act. Returns a sort key that does not depend on how the root is written (`elem(it)` in a loop is `C1_0` in the closure), or None"""
+    neg = 0
+    if x[0] == "op" and x[1] == "Not" and len(x[2]) == 1:
+        x, neg = x[2][0], 1
+    path = []
+    while x[0] == "field":
+        path.append(str(x[2]))
+        x = x[1]
+    if x[0] == "param":
+        return (0, x[1], tuple(reversed(path)), neg)
+    if x[0] in ("cparam", "elem"):
+        return (1, 0, tuple(reversed(path)), neg)
+    return None
+
+
+def _mk_then(c, v):
+    """`c.then(|| v)`; a conjunction of plain flags is written in one order (their evaluation order cannot be observed)"""
+    parts = _conj(c)
+    if len(parts) > 1 and all(_plain_flag(x) is not None for x in parts):
+        parts = sorted(parts, key=_plain_flag)
+        c = parts[-1]
+        for x in reversed(parts[:-1]):
+            c = ("op", "&&", [x, c])
+    return ("call", "then", [c, v])
+
+
 def _then_norm(c, v):
     """`c.then(|| v)` as the result of a function: one conjunction (right-nested); `let Some(_) = X` followed by uses of its payload
     is `X?` at those uses"""
@@ -970,9 +1040,13 @@ def _mk_if_raw(c, t, e):
     if e == ("lit", True):
         return ("op", "||", [_not(c), t])
     if t == ("def", "v1::None") and e[0] == "call" and e[1] == "Some" and len(e[2]) == 1:
-        return ("call", "then", [_not(c), e[2][0]])
+        return _mk_then(_not(c), e[2][0])
     if e == ("def", "v1::None") and t[0] == "call" and t[1] == "Some" and len(t[2]) == 1:
-        return ("call", "then", [c, t[2][0]])
+        return _mk_then(c, t[2][0])
+    if e == ("def", "v1::None") and t[0] == "call" and t[1] == "then" and len(t[2]) == 2:
+        return _mk_then(("op", "&&", [c, t[2][0]]), t[2][1])          # if c { d.then(|| v) } else { None }  ==  (c && d).then(|| v)
+    if t == ("def", "v1::None") and e[0] == "call" and e[1] == "then" and len(e[2]) == 2:
+        return _mk_then(("op", "&&", [_not(c), e[2][0]]), e[2][1])
     if t[0] == "call" and e[0] == "call" and t[1] == e[1] and len(t[2]) == len(e[2]) and t[1] not in ("then", "ok_or"):
         # if c { f(x, a) } else { f(x, b) }  ==  f(x, if c { a } else { b })
         diff = [i for i, (a, b) in enumerate(zip(t[2], e[2])) if a != b]
@@ -1089,8 +1163,29 @@ def _decide(t):
                 x = x[2]
             else:
                 return x
-    names = sorted(atoms)
-    return _decide_table(names, atoms, lambda asg: leaf(t, asg))
+    # the order of the questions is the one with the fewest tests (ties: alphabetical), so that the table does not depend on how
+    # it was written and a plain `if a {..} else if b {..} else {..}` chain stays a chain
+    memo = {}
+
+    def leaf_of(asg):
+        k = tuple(sorted(asg.items()))
+        if k not in memo:
+            memo[k] = leaf(t, asg)
+        return memo[k]
+
+    def size(order, i, asg):
+        if i == len(order):
+            return 0, leaf_of(asg)
+        a = dict(asg); a[order[i]] = True
+        nt, tb = size(order, i + 1, a)
+        a = dict(asg); a[order[i]] = False
+        ne, eb = size(order, i + 1, a)
+        if tb == eb:
+            return nt, tb
+        return 1 + nt + ne, ("?", order[i], tb, eb)
+    import itertools
+    names = min((list(o) for o in itertools.permutations(sorted(atoms))), key=lambda o: (size(o, 0, {})[0], o))
+    return _decide_table(names, atoms, leaf_of)
 
 
 def _decide_table(names, atoms, leaf_of):
@@ -1132,6 +1227,8 @@ def rewrite(t, fn):
         n = (k, [rewrite(x, fn) for x in t[1]], rewrite(t[2], fn))
     elif k == "call":
         n = (k, t[1], [rewrite(a, fn) for a in t[2]])
+        if t[1] == "then" and len(n[2]) == 2 and n[2][0] != t[2][0]:
+            n = _mk_then(n[2][0], n[2][1])          # the order of plain flags is decided on what is substituted
     elif k == "closure":
         n = (k, t[1], t[2], rewrite(t[3], fn))
     elif k == "struct":
@@ -1724,6 +1821,53 @@ class Norm:
                     et.append(("mutarg", cshort(node.get("callee", node.get("name", "?"))), args, gt))
         return et, inlined_any
 
+    def _token_builder(self, init, effs, rel, depth, origin):
+        """let mut ts = TokenStream::new(); ts.extend(quote!(a)); for x in IT { x.to_tokens(&mut ts) }; ts   ==   quote!(a #( #xs )*)  with xs = IT:
+        every append is a piece of one template; appends in a `for` loop are a repetition over the loop's iterator"""
+        if init != ("tpl", "quote", "", []) or origin[0] != "let" or not effs:
+            return None
+        text, slots = [], []
+        for (node, kind, _g), r in zip(effs, rel):
+            if len(r) > 1 or (r and (r[0][0] != "for" or _has_loop_exit(r[0][2]))):
+                return None
+            piece = None
+            if kind == "mutcall" and cshort(node.get("callee", "")) == "Extend::extend" and self._lhs_path(node["recv"]) == "" and len(node["args"]) == 1:
+                piece = self._t(node["args"][0])
+            elif kind.startswith("mutarg") and node.get("k") == "MethodCall" and int(kind.split(":")[1]) == 1:
+                name = cshort(node.get("callee", ""))
+                if name == "ToTokensWithSettings::to_tokens" and len(node["args"]) == 2 \
+                        and cshort(self.body.get("path") or "") != "ToTokensWithSettings::to_token_stream":       # (not inside its own definition)
+                    piece = ("call", "ToTokensWithSettings::to_token_stream", [self._t(node["recv"]), self._t(node["args"][1])])
+                elif name == "ToTokens::to_tokens" and len(node["args"]) == 1:
+                    piece = self._t(node["recv"])
+            if piece is None:
+                return None
+            if r:
+                it = self._t(r[0][1])
+                d = depth + 1
+                es = _show(("elem", it))
+
+                def sub(n):
+                    if n[0] == "elem" and _show(n) == es:
+                        return ("cparam", d, 0)
+                    if n[0] == "cparam" and n[1] >= d:
+                        return ("cparam", n[1] + 1, n[2])
+                    if n[0] == "closure" and n[1] >= d:
+                        return ("closure", n[1] + 1, n[2], n[3])
+                    return None
+                slots.append(("call", "Iterator::map", [it, ("closure", d, 1, rewrite(piece, sub))]))
+                text.append("#( #%d )*" % (len(slots) - 1))
+            elif piece[0] == "tpl" and piece[1] == "quote":
+                base = len(slots)
+                for tok in piece[2].split(" "):
+                    m = re.fullmatch(r"#(\d+)", tok)
+                    text.append("#%d" % (base + int(m.group(1))) if m else tok)
+                slots.extend(piece[3])
+            else:
+                slots.append(piece)
+                text.append("#%d" % (len(slots) - 1))
+        return ("tpl", "quote", " ".join(" ".join(text).split()), slots)
+
     def _canon_mut(self, lid, t, effs, origin):
         """canonical forms of simple mutable-local idioms:
            let mut v = Vec::new(); for x in IT { v.push(X) }      ==  IT.map(|x| X).collect()
@@ -1737,6 +1881,10 @@ class Norm:
         rel = [g[len(lguards):] if g[:len(lguards)] == lguards else None for _n, _k, g in effs]
         if any(r is None for r in rel):
             return t
+        # (t) a token stream assembled by appends: the template of its pieces, in order
+        tt = self._token_builder(init, effs, rel, depth, origin)
+        if tt is not None:
+            return tt
         # (a) a Vec assembled by pushes: the list of its parts, in order
         vt = self._vec_parts(init, effs, rel)
         if vt is not None:
@@ -2600,6 +2748,8 @@ class Norm:
                 return ("cast", peel_ty(e.get("ty", "")), args[0])
             if name == "ToTokens::to_tokens" and len(args) == 2 and args[0][0] == "tpl" and args[0][1] == "quote":
                 return ("call", "Extend::extend", [args[1], args[0]])     # quote!(..).to_tokens(ts)  ==  ts.extend(quote!(..))
+            if name in ("ToTokens::to_token_stream", "ToTokens::into_token_stream") and len(args) == 1:
+                return ("tpl", "quote", "#0", [args[0]])       # ToTokens::to_token_stream(x)  ==  quote!(#x)
             if name == "FromIterator::from_iter" and len(args) == 1:
                 return ("call", "Iterator::collect", args)          # T::from_iter(it)  ==  it.collect::<T>()
             if name == "__private::must_use" and len(args) == 1:
@@ -2637,6 +2787,8 @@ class Norm:
             args = [self._t(a) for a in e["args"]]
             if name == "ToTokens::to_tokens" and len(args) == 1 and recv[0] == "tpl" and recv[1] == "quote":
                 return ("call", "Extend::extend", [args[0], recv])     # quote!(..).to_tokens(ts)  ==  ts.extend(quote!(..))
+            if name in ("ToTokens::to_token_stream", "ToTokens::into_token_stream") and not args:
+                return ("tpl", "quote", "#0", [recv])       # x.to_token_stream()  ==  quote!(#x)
             if name in _TO_STRING and not args and _is_string_conv(e, e["recv"]):
                 return recv
             if name in ("From::from", "Into::into") and not args and _is_int_widening(e, e["recv"]):
@@ -2762,9 +2914,9 @@ class Norm:
                 # it.for_each(|x| f(x))  ==  for x in it { f(x) }
                 return _mk_for(recv, _apply(args[0], ("elem", recv)))
             if name == "bool::then" and len(args) == 1 and args[0][0] == "closure" and args[0][2] == 0:
-                return ("call", "then", [recv, _apply(args[0], None)])      # c.then(|| x)  ==  if c {Some(x)} else {None}
+                return _mk_then(recv, _apply(args[0], None))      # c.then(|| x)  ==  if c {Some(x)} else {None}
             if name == "bool::then_some" and len(args) == 1:
-                return ("call", "then", [recv, args[0]])
+                return _mk_then(recv, args[0])
             if name.endswith("::expect") and len(args) == 1 and args[0][0] == "lit":
                 args = []   # the message text is not part of the term
             return ("call", name, [recv] + args)
@@ -2934,6 +3086,7 @@ class Norm:
             slots.append(st)
             return "#%d" % (len(slots) - 1)
         text = " ".join(T.render(items, interp).split())
+        text, slots = _fold_rep_groups(text, slots)
         return ("tpl", kind, text, slots)
 
     def _fmt(self, parts):
@@ -3359,7 +3512,31 @@ def _mk_for(it, body):
         old = ("elem", it)
         el = ("elem", inner_it)
         return _mk_for(base, _mk_for(inner_it, rewrite(body, lambda n: el if n == old else None)))
+    old = ("elem", it)
+    if it[0] == "call" and it[1] == "Iterator::collect" and len(it[2]) == 1 and it[2][0][0] != "try":
+        # for x in it.collect::<Vec<_>>() { body }  ==  for x in it { body }   (the elements and their order are the same)
+        base = it[2][0]
+        el = ("elem", base)
+        return _mk_for(base, rewrite(body, lambda n: el if n == old else None))
+    if it[0] == "call" and it[1] in ("vec!", "Vec::new") and len(it[2]) <= 4 and not _loop_control(body):
+        # for x in vec![a, b] { body }  ==  body[a]; body[b]
+        runs = [rewrite(body, (lambda a: (lambda n: a if n == old else None))(a)) for a in it[2]]
+        if not runs:
+            return ("tup", [])
+        return runs[0] if len(runs) == 1 else ("seq", runs[:-1], runs[-1])
+    if it[0] == "match" and all(a[1] is None for a in it[2]) and not _diverges(it):
+        # for x in match s { p => xs, q => ys } { body }  ==  match s { p => for x in xs { body }, q => for x in ys { body } }
+        arms = []
+        for a in it[2]:
+            ai = a[2]
+            el = ("elem", ai)
+            arms.append((a[0], a[1], _mk_for(ai, rewrite(body, (lambda el: (lambda n: el if n == old else None))(el)))))
+        return _canon_match_free(it[1], arms)
     return ("for", it, body)
+
+
+def _loop_control(t):
+    return any(x[0] in ("break", "continue") for x in subterms(t))
 
 
 def _elem_of(it):
